@@ -1037,6 +1037,7 @@ func main() {
 		if quoteLB != claimedQuoteLB {
 			lawFail(o, "roundtrip:csv:linebreak_in_cell", map[string]interface{}{"probe": "EncodeView(CSV) of the cells \"x\\ny\", \"r\\rs\" is not a,b / \"x\\ny\",\"r\\rs\": fields containing CR/LF are not quoted"})
 		}
+		csvqBin = buildCsvq(scratch)
 		corpus(o, scratch)
 		refuseMatrix(o, scratch)
 		for i := 0; i < n; i++ {
@@ -1053,8 +1054,14 @@ func main() {
 				rtCase(g, o, scratch)
 			case 11:
 				jescCase(g, o)
-			case 12, 13:
+			case 12:
 				diaCase(g, o, scratch)
+			case 13:
+				if (i/20)%2 == 0 {
+					diaCase(g, o, scratch)
+				} else {
+					createCase(g, o, scratch)
+				}
 			case 14:
 				refuseCase(g, o, scratch)
 			case 15:
@@ -1062,6 +1069,8 @@ func main() {
 			default: // 19
 				if (i/20)%8 == 0 {
 					historyCase(g, o, scratch)
+				} else if (i/20)%8 == 1 || (i/20)%8 == 5 {
+					boundaryCase(g, o, scratch)
 				} else {
 					jdecCase(g, o, scratch)
 				}
